@@ -101,7 +101,10 @@ def slot_refs(c):
     return [v["$slot"] for v in c.values() if isinstance(v, dict) and len(v) == 1 and "$slot" in v]
 
 
-def closure(calls, k, force=False):
+MUTATING = {"writer_write": "writer", "writer_flush": "writer"}     # calls that change the object in that argument
+
+
+def closure(calls, k, force=False, failed=()):
     """The calls before k that BUILD the objects call k is handed (parsed schemas, caller-supplied named_schemas
     dictionaries and everything parsed into them, opened readers), in order, followed by call k itself."""
     need = set(slot_refs(calls[k]))
@@ -119,15 +122,21 @@ def closure(calls, k, force=False):
                     if sl not in need:
                         need.add(sl)
                         changed = True
+    def mutates(c):
+        a = MUTATING.get(c["api"])
+        return a is not None and isinstance(c.get(a), dict) and c[a].get("$slot") in need
+    # Writer.write calls that RAISED in the history are left out: a call that failed midway must leave no trace in the
+    # object, so the later calls must give what they give when the failed call never happened
     idx = [j for j in range(k) if calls[j].get("$out") in need or
-           (isinstance(calls[j].get("named_schemas"), dict) and calls[j]["named_schemas"].get("$slot") in need)]
+           (isinstance(calls[j].get("named_schemas"), dict) and calls[j]["named_schemas"].get("$slot") in need) or
+           (mutates(calls[j]) and j not in failed)]
     return [calls[j] for j in idx] + [calls[k]]
 
 
-def run_rebuilt(calls, k, scratch, tag, force=False):
+def run_rebuilt(calls, k, scratch, tag, force=False, failed=()):
     """call k in a fresh interpreter that first rebuilds the argument objects by the calls that built them
     (data objects come from the generator's pristine copy: the pickled history is written before anything ran)"""
-    sub = closure(calls, k, force)
+    sub = closure(calls, k, force, failed)
     if sub is None:
         return None
     try:
@@ -204,7 +213,8 @@ def _run(ctx, nh, scratch):
     variant, facts = source_variant()
     ctx.notes["tree_under_test"] = REPO
     ctx.notes["model_variant_selected_by_source_facts"] = variant
-    hists = [G.HistoryGen(rng, rng.randrange(15, 26)).build() for _ in range(nh)]
+    T = G.HistoryGen.TARGETED
+    hists = [G.HistoryGen(rng, rng.randrange(15, 26), must=[T[(3 * h + j) % len(T)] for j in range(3)]).build() for h in range(nh)]
 
     # ---- 1. every history in ONE interpreter
     with ThreadPoolExecutor(max_workers=16) as ex:
@@ -219,8 +229,9 @@ def _run(ctx, nh, scratch):
     #          rebuilds those objects (what did the calls in between do to them?)
     jobs2 = [(h, r["i"]) for h, recs in enumerate(hrecs) for r in recs
              if slot_refs(hists[h].calls[r["i"]]) or hists[h].meta[r["i"]].get("shared_data")]
+    failed = [{r["i"] for r in recs if r["api"] == "writer_write" and r["res"]["st"] == "raised"} for recs in hrecs]
     with ThreadPoolExecutor(max_workers=16) as ex:
-        reb = list(ex.map(lambda j: run_rebuilt(hists[j[0]].calls, j[1], scratch, "b%d_%d" % j, force=True), jobs2))
+        reb = list(ex.map(lambda j: run_rebuilt(hists[j[0]].calls, j[1], scratch, "b%d_%d" % j, force=True, failed=failed[j[0]]), jobs2))
     rebuilt = dict(zip(jobs2, reb))
 
     # ---- 3. the model, call by call from the observed state
@@ -378,7 +389,8 @@ def differs_at_end(calls, scratch, tag, rebuilt=False):
     if not last:
         return False
     if rebuilt:
-        rb = run_rebuilt(calls, len(calls) - 1, scratch, tag + "b", force=True)
+        fl = {r["i"] for r in recs if r["api"] == "writer_write" and r["res"]["st"] == "raised"}
+        rb = run_rebuilt(calls, len(calls) - 1, scratch, tag + "b", force=True, failed=fl)
         return rb is not None and rb != last[0]["res"]
     fr = run_fresh(last[0]["pickled"], scratch, tag + "f")
     return fr is not None and fr != last[0]["res"]
@@ -409,7 +421,8 @@ def replay(ctx, rep):
         recs = run_history(calls, scratch, "rp")
         r = [x for x in recs if x["i"] == c["call_index"]][0]
         fr = run_fresh(r["pickled"], scratch, "rpf")
-        rb = run_rebuilt(calls, c["call_index"], scratch, "rpb", force=True)
+        fl = {x["i"] for x in recs if x["api"] == "writer_write" and x["res"]["st"] == "raised"}
+        rb = run_rebuilt(calls, c["call_index"], scratch, "rpb", force=True, failed=fl)
         print("call:", json.dumps(describe(calls[c["call_index"]]))[:600])
         print("after history:", json.dumps(r["res"])[:500])
         print("fresh interpreter (same argument values):", json.dumps(fr)[:500])
